@@ -73,3 +73,46 @@ Example C18_bookkeeping_example :
   check_history hc_ex steps_bk ctx_new = [HOk; HOk; HOk; HOk] /\
   hist_pools hc_ex (firstn 2 steps_bk) ctx_new = [Bs "p1"].
 Proof. exact history_bookkeeping_example. Qed.
+
+(* ---- renders through a failing writer (HRenderF steps) ----
+   C18_pools_held_between_resets and C18_reset_releases_each_once quantify over histories that
+   contain faulted renders too: pooled objects acquired by a render that failed are held, and the
+   next Reset gives each back exactly once.  What is specific to a failed render: *)
+
+(* the writer fails during a render: the writer error is returned, NO deferred function runs, the
+   functions registered so far stay pending, what was acquired stays held *)
+Theorem C18_faulted_render_keeps_deferred : forall flits lookup budget depth t c w c' w' e,
+  wd c = O -> w_failed w = false ->
+  render flits lookup budget depth t c w = Out c' w' e -> w_failed w' = true ->
+  e = Some EWriter /\
+  exists evs, no_run evs /\ elog c' = evs ++ elog c /\ dfr c' = dfr c ++ defers evs /\
+              ipv c' = ipv c ++ acquires evs /\ wd c' = O.
+Proof. exact faulted_render_keeps_deferred. Qed.
+Print Assumptions C18_faulted_render_keeps_deferred.
+
+(* any error of the outermost render: nothing deferred runs *)
+Theorem C18_failed_render_runs_no_deferred : forall flits lookup budget depth t c w c' w' x,
+  wd c = O -> render flits lookup budget depth t c w = Out c' w' (Some x) ->
+  exists evs, no_run evs /\ elog c' = evs ++ elog c /\ dfr c' = dfr c ++ defers evs /\ ipv c' = ipv c ++ acquires evs.
+Proof. exact failed_render_runs_no_deferred. Qed.
+Print Assumptions C18_failed_render_runs_no_deferred.
+
+(* the next Reset drops the pending functions without running them (the log gains releases only)
+   and gives every pooled object back exactly once *)
+Theorem C18_reset_drops_pending_deferred : forall c,
+  dfr (ctx_reset (clear_log c)) = [] /\ ipv (ctx_reset (clear_log c)) = [] /\
+  rev (elog (ctx_reset (clear_log c))) = map EvRelease (ipv c) /\
+  clear_log (ctx_reset (clear_log c)) = ctx_new.
+Proof. exact reset_after_failed_render. Qed.
+Print Assumptions C18_reset_drops_pending_deferred.
+
+Example C18_history_fault_example :
+  check_history hc_ex steps_fault ctx_new = [HOk; HOk; HOk; HOk; HOk] /\
+  (match final_ctx hc_ex (firstn 2 steps_fault) ctx_new with
+   | Some c => dfr c = [Bs "d1"%string] /\ ipv c = [Bs "p1"%string] /\
+               forallb (fun ev => match ev with EvRun _ _ => false | _ => true end) (elog c) = true
+   | None => False
+   end) /\
+  hist_pools hc_ex (firstn 2 steps_fault) ctx_new = [Bs "p1"%string] /\
+  final_ctx hc_ex (firstn 3 steps_fault) ctx_new = Some ctx_new.
+Proof. exact history_fault_example. Qed.
